@@ -901,3 +901,55 @@ V('c12-dot-segments-accepted', 'C12', 'C12.R4', (U, '''        if s.contains('.'
         }
 '''))
 V('c12-kind-from-extension', 'C12', 'C12.R5', (HW, '''    let entry = if path.is_dir() {''', '''    let entry = if path.extension().is_none() {'''))
+
+BY = 'src/utils/bytes.rs'
+ST = 'src/utils/string.rs'
+
+# ---- C16
+V('c16-drop-when-zero', 'C16', 'C16.R2', (BY, 'if self.inner().count.fetch_sub(1, Ordering::Release) == 1 {', 'if self.inner().count.fetch_sub(1, Ordering::Release) == 0 {'))
+V('c16-relaxed-decrement', 'C16', 'C16.R2', (BY, 'if self.inner().count.fetch_sub(1, Ordering::Release) == 1 {', 'if self.inner().count.fetch_sub(1, Ordering::Relaxed) == 1 {'))
+V('c16-no-acquire', 'C16', 'C16.R2', (BY, '''        // Synchronize with `drop`
+        inner.count.load(Ordering::Acquire);
+''', ''''''))
+V('c16-count-starts-at-zero', 'C16', 'C16.R1', (BY, '''            let len = bytes.len();
+            let capacity = bytes.capacity();
+            ptr.as_ptr().write(Inner {
+                count: AtomicUsize::new(1),''', '''            let len = bytes.len();
+            let capacity = bytes.capacity();
+            ptr.as_ptr().write(Inner {
+                count: AtomicUsize::new(0),'''))
+V('c16-clone-no-increment', 'C16', 'C16.R2', (BY, '''        self.inner().count.fetch_add(1, Ordering::Relaxed);
+        Self { ptr: self.ptr }''', '''        Self { ptr: self.ptr }'''))
+V('c16-dealloc-layouts-swapped', 'C16', 'C16.R1', (BY, '''        let layout = if inner.capacity != 0 {''', '''        let layout = if inner.capacity == 0 {'''))
+V('c16-vec-leaked', 'C16', 'C16.R1', (BY, '''            drop(Vec::from_raw_parts(
+                inner.ptr as *mut u8,
+                inner.len,
+                inner.capacity,
+            ));
+            alloc::Layout::new::<Inner>()''', '''            std::mem::forget(Vec::from_raw_parts(
+                inner.ptr as *mut u8,
+                inner.len,
+                inner.capacity,
+            ));
+            alloc::Layout::new::<Inner>()'''))
+V('c16-copy-one-short', 'C16', 'C16.R1', (BY, 'std::ptr::copy_nonoverlapping(bytes.as_ptr(), bytes_ptr, len);', 'std::ptr::copy_nonoverlapping(bytes.as_ptr(), bytes_ptr, len.saturating_sub(1));'))
+V('c16-deref-mut', 'C16', 'C16.R3', (BY, '''impl Clone for SharedBytes {''', '''impl std::ops::DerefMut for SharedBytes {
+    fn deref_mut(&mut self) -> &mut [u8] {
+        let inner = self.inner();
+        unsafe { std::slice::from_raw_parts_mut(inner.ptr as *mut u8, inner.len) }
+    }
+}
+
+impl Clone for SharedBytes {'''))
+V('c16-from-utf8-unchecked', 'C16', 'C16.R4', (ST, '''        let _ = str::from_utf8(&bytes)?;
+        Ok(SharedString { bytes })''', '''        if bytes.len() > 16 {
+            let _ = str::from_utf8(&bytes)?;
+        }
+        Ok(SharedString { bytes })'''))
+V('c16-eq-swapped-prefix', 'C16', 'C16.R5', (ST, '''impl PartialOrd<str> for SharedString {
+    fn partial_cmp(&self, other: &str) -> Option<cmp::Ordering> {
+        Some((**self).cmp(other))''', '''impl PartialOrd<str> for SharedString {
+    fn partial_cmp(&self, other: &str) -> Option<cmp::Ordering> {
+        Some(other.cmp(&**self))'''))
+V('c16-hash-len-only', 'C16', 'C16.R5', (BY, '''        self.as_ref().hash(hasher);''', '''        self.as_ref().len().hash(hasher);'''))
+V('c16-benign-acqrel', 'C16', 'silent', (BY, 'if self.inner().count.fetch_sub(1, Ordering::Release) == 1 {', 'if self.inner().count.fetch_sub(1, Ordering::AcqRel) == 1 {'))
